@@ -66,9 +66,9 @@ def r_primitives(rule, root=None):
     # Union / Intersection: pairwise min / max, empty -> +inf / -inf
     for ty, op, other, inf in (("Union", "min", "max", "f32::INFINITY"), ("Intersection", "max", "min", "-f32::INFINITY")):
         fn = from_fn(ty, LIB, root)
-        t = A.unparse(fn["body"]).replace(" ", "") + "".join(A.unparse(f["body"]).replace(" ", "") for f in A.find(fn["body"], "Fn"))
+        t = A.ftxt(fn["body"]) + "".join(A.ftxt(f["body"]) for f in A.find(fn["body"], "Fn"))
         calls = [c["method"] for c in A.find(fn["body"], "MethodCall") if c["method"] in ("min", "max")]
-        consts = [A.unparse(c["args"][0]).replace(" ", "") for c in A.find(fn["body"], "Call") if (A.path_segs(c["func"]) or [])[-2:] == ["Tree", "constant"]]
+        consts = [A.ftxt(c["args"][0]) for c in A.find(fn["body"], "Call") if (A.path_segs(c["func"]) or [])[-2:] == ["Tree", "constant"]]
         if calls == [op] and consts == [inf] and "recurse(&s[..(n/2)])" in t and "recurse(&s[(n/2)..])" in t and "v.input.is_empty()" in t:
             rule.ok("%s folds its inputs with %s; empty input is %s" % (ty, op, inf), file=LIB, line=fn["ln"])
         else:
@@ -117,8 +117,8 @@ def r_transforms(rule, root=None):
         outer = [s for s in A.find(fn["body"], "Struct") if A.path_segs(s["path"])[-1] == "Reflect"]
         ok = False
         if len(st) == 1 and len(outer) == 1:
-            f = {x["name"]: A.unparse(x["e"]).replace(" ", "") for x in st[0]["fields"]}
-            o = {x["name"]: A.unparse(x["e"]).replace(" ", "") for x in outer[0]["fields"]}
+            f = {x["name"]: A.ftxt(x["e"]) for x in st[0]["fields"]}
+            o = {x["name"]: A.ftxt(x["e"]) for x in outer[0]["fields"]}
             ok = f.get("axis") == "Axis::%s" % ax and f.get("offset") == "v.offset" and o.get("shape") == "v.shape"
             got = f.get("axis")
         if ok:
@@ -129,7 +129,7 @@ def r_transforms(rule, root=None):
         st = [s for s in A.find(fn["body"], "Struct") if A.path_segs(s["path"])[-1] == "Rotate"]
         ok = False
         if len(st) == 1:
-            f = {x["name"]: A.unparse(x["e"]).replace(" ", "") for x in st[0]["fields"]}
+            f = {x["name"]: A.ftxt(x["e"]) for x in st[0]["fields"]}
             ok = f == {"shape": "v.shape", "angle": "v.angle", "center": "v.center", "axis": "Axis::%s" % ax}
         if ok:
             rule.ok("Rotate%s rotates about Axis::%s by v.angle around v.center" % (ax, ax), file=LIB, line=fn["ln"])
@@ -138,13 +138,13 @@ def r_transforms(rule, root=None):
     # Rotate: Move(-c), rotate by -angle (radians) about axis, Move(c)
     fn = from_fn("Rotate", root=root)
     moves = [s for s in A.find(fn["body"], "Struct") if A.path_segs(s["path"])[-1] == "Move"]
-    t = A.unparse(fn["body"]).replace(" ", "")
+    t = A.ftxt(fn["body"])
     probs = []
     if len(moves) != 2:
         probs.append("expected two Move steps")
     else:
-        o0 = {x["name"]: A.unparse(x["e"]).replace(" ", "") for x in moves[0]["fields"]}
-        o1 = {x["name"]: A.unparse(x["e"]).replace(" ", "") for x in moves[1]["fields"]}
+        o0 = {x["name"]: A.ftxt(x["e"]) for x in moves[0]["fields"]}
+        o1 = {x["name"]: A.ftxt(x["e"]) for x in moves[1]["fields"]}
         if o0.get("offset") != "-v.center" or o0.get("shape") != "v.shape":
             probs.append("the first step must move the shape by -v.center (found %s)" % o0)
         if o1.get("offset") != "v.center" or o1.get("shape") != "shape":
@@ -172,7 +172,7 @@ def r_transforms(rule, root=None):
         _cmp_args(rule, "RevolveY", fn, remap[0]["args"][:2], ["sqrt(x**2 + z**2)", "y"], env, "radius measured in the plane normal to Y, height kept")
     else:
         rule.bad("RevolveY|shape", "RevolveY must remap_xyz once", A.where(LIB, fn))
-    t = A.unparse(fn["body"]).replace(" ", "")
+    t = A.ftxt(fn["body"])
     if "letoffset=Vec3::new(-v.offset,0.0,0.0);" in t and "offset:-offset" in t and "Move{shape:shape,offset:offset}" in t.replace("shape,offset", "shape:shape,offset:offset") or ("Move{shape:shape,offset:offset}" in t):
         rule.ok("RevolveY shifts along X by its offset before and back after revolving")
     else:
@@ -250,7 +250,7 @@ class ShapeSym:
             return self.vals[e["segs"][0]]
         if k == "MethodCall" and e["method"] in ("clone", "into") and not e["args"]:
             return self.ev(e["recv"])
-        if k == "Field" and A.unparse(e).replace(" ", "") == "v.shape":
+        if k == "Field" and A.ftxt(e) == "v.shape":
             return self.base()
         if k == "Call":
             segs = A.path_segs(e["func"]) or []
@@ -361,14 +361,14 @@ def r_named_constants(rule, root=None):
         if ty == "Plane" and len(c["name"]) == 2 and set(c["name"]) <= set("XYZ"):
             missing = (set("XYZ") - set(c["name"])).pop()
             st = list(A.find(c["e"], "Struct"))
-            f = {x["name"]: A.unparse(x["e"]).replace(" ", "") for x in st[0]["fields"]} if st else {}
+            f = {x["name"]: A.ftxt(x["e"]) for x in st[0]["fields"]} if st else {}
             if f.get("axis") == "Axis::%s" % missing and A.lit_value([x for x in st[0]["fields"] if x["name"] == "offset"][0]["e"]) == 0:
                 rule.ok("Plane::%s is normal to %s through the origin" % (c["name"], missing), file=TYPES, line=c["ln"])
             else:
                 rule.bad("Plane::%s" % c["name"], "Plane::%s has axis %s; the plane named %s is normal to Axis::%s" % (c["name"], f.get("axis"), c["name"], missing), A.where(TYPES, c))
     # Axis::try_from normalises
     fn = A.find_fn(TYPES, "try_from", self_ty="Axis", root=root)
-    t = A.unparse(fn["body"]).replace(" ", "")
+    t = A.ftxt(fn["body"])
     if "Ok(Self((value/norm)))" in t and "letnorm=value.norm();" in t:
         rule.ok("Axis::try_from normalises to unit length")
     else:
